@@ -15,8 +15,14 @@ def checkBoard (engine path : String) (os : List Obj) : Option Verdict := Id.run
       | none => return some (.bad s!"board {path}: parent {o.parent} of {o.id} not in the dump")
       | some p =>
         if !decide (encloses1px p.box o.box) then
-          return some (.specfalse (sigOf engine "child-outside-container")
-            s!"board {path}: {o.id} {boxStr o.box} not inside {p.id} {boxStr p.box}")
+          -- which side sticks out most, and by how much (part of the signature: known defects are matched per side)
+          let over : List (String × Rat) :=
+            [("left", p.box.x - o.box.x), ("top", p.box.y - o.box.y),
+             ("right", o.box.right - p.box.right), ("bottom", o.box.bottom - p.box.bottom)]
+          let worst := over.foldl (fun (b : String × Rat) x => if x.2 > b.2 then x else b) ("left", p.box.x - o.box.x)
+          let mag := if worst.2 ≤ 10 then "le10" else "gt10"
+          return some (.specfalse s!"child-outside-container:{engine}:{worst.1}:{mag}"
+            s!"board {path}: {o.id} {boxStr o.box} not inside {p.id} {boxStr p.box} ({worst.1} by {ratStr worst.2})")
   for (a, b) in pairs shapes do
     if a.parent == b.parent then
       if !decide (disjoint1px a.box b.box) then
